@@ -102,7 +102,9 @@ pub fn run(req: &RunRequest) -> Value {
             }
         }
         client::standard_catalog(&mut cluster, Strategy::Simple(1), false);
-        for ks in &KEYSPACES[1..] {
+        // "mixedcase": the lower-cased namesake of the case-sensitive name exists as well,
+        // so that an unquoted `USE MixedCase` would succeed - in the wrong keyspace.
+        for ks in KEYSPACES[1..].iter().copied().chain(std::iter::once("mixedcase")) {
             cluster.keyspaces.push(KeyspaceDef {
                 name: ks.to_string(),
                 strategy: Strategy::Simple(1),
